@@ -75,7 +75,7 @@ CLAIMS = {
          "The composition decode->encode->decode is a paper lemma over the machine-checked per-function contracts. "),
  "C16": ("TLV.Bytes/Option.Bytes: exact image in the exact, truncated and padded cases, no panic for any 16-bit length; TLVs.Bytes/Options.Serialize: result is the serialisation "
          "of the map in the (arbitrary) iteration order; ReadTLVs1/ReadOptions/ParseOptions: on the serialisation of any well-formed set in any order they return that set "
-         "(loop invariants over a ghost permutation), on arbitrary input they terminate, stay within the allocation budget and return a well-formed map; Options.Len == len(Serialize()); accessors total.",
+         "(loop invariants over a ghost permutation); on ANY well-formed triplet sequence, repeated tags included, each of the four parsers returns for every tag the value of its LAST occurrence (recursive spec tlast, ghost tag), so the two entry points of each container agree; on arbitrary input they terminate, stay within the allocation budget and return a well-formed map; Options.Len == len(Serialize()); accessors total.",
          "Options.Add on a nil container loses the option (known finding D18: value receiver; carved out exactly, proved for every non-nil container). "),
  "C17": ("Bit-vector proofs over all 2^64 ids: CombineMsgID places each in-range field at the CMPP bit positions, SplitMsgID returns those fields, split-then-combine is the identity, "
          "every split field is below its decimal print width.",
